@@ -6,6 +6,7 @@ import (
 	"strings"
 	"sync"
 	"testing"
+	"time"
 
 	"github.com/lavanet/lava/v5/protocol/lavasession"
 	"pgregory.net/rapid"
@@ -27,6 +28,7 @@ type flight struct {
 	relayNum uint64
 	sess     *lavasession.SingleProviderSession
 	prepared bool
+	fuzzy    bool // prepared while an UpdateSessionCU on its project had not returned: amounts not checkable
 	prepFail bool
 	delta    uint64 // CU accepted for this relay (observed growth of the session's CuSum)
 	ve       uint64
@@ -37,6 +39,14 @@ type sessLedger struct {
 	hasDone bool
 	last    uint64 // last relay number that completed (OnSessionDone)
 	ptr     *lavasession.SingleProviderSession
+}
+
+// pendingUpdate: UpdateSessionCU addressed a session with a relay in flight and did not return
+// within 100 ms. (On a loaded machine a call that does not wait at all can also take that long; therefore, from this moment until the call has returned, every exact-value clause on the project is skipped, and the ledger is re-read from the sessions when it has). The unchanged code never waits there; an implementation that serialises the update
+// with the relay (session lock) does, and then the update completes when the relay is released.
+type pendingUpdate struct {
+	key  skey
+	done chan error
 }
 
 type seqWorld struct {
@@ -50,6 +60,7 @@ type seqWorld struct {
 	blocked  uint64          // epochs <= blocked are no longer valid
 	log      []string
 	lockedTries, lockedBudget int
+	pending *pendingUpdate // an UpdateSessionCU that waits for the relay in flight on its session
 	// evidence
 	nAccept, nRollback, nLimitRej, nReplayRej, nLockedRej, nExpiredFail, nUpdRaise, nInflightOverlap int
 	classes map[string]bool
@@ -219,6 +230,9 @@ func (w *seqWorld) opPrepare(t *rapid.T) {
 	default:
 		total = cuSum + cu
 	}
+	if w.inFlux(pkey{f.key.Epoch, f.key.Project}) {
+		f.fuzzy = true
+	}
 	err := f.sess.PrepareSessionForUsage(relayCtx(), cu, total, w.cfg.Threshold, ve)
 	cuAfter := cuRead(&f.sess.CuSum)
 	usedAfter := parent.VerifUsedCU()
@@ -247,7 +261,8 @@ func (w *seqWorld) opPrepare(t *rapid.T) {
 	if ve > 0 {
 		w.classes["virtual-epoch"] = true
 	}
-	if w.valid(f.key.Epoch) {
+	w.pollPending()
+	if w.valid(f.key.Epoch) && !w.inFlux(pk) {
 		c.Clause("limit: accepted CU of the project in the epoch <= maxCU*(virtualEpoch+1) at acceptance")
 		bound := max * (ve + 1)
 		if usedAfter > bound {
@@ -281,6 +296,47 @@ func (w *seqWorld) sumCu(pk pkey) uint64 {
 	return sum
 }
 
+// joinPending waits for the blocked UpdateSessionCU after its session was released and brings the
+// ledger back in step with the sessions (the update ran concurrently with the release, so the
+// exact-value clauses of that release are skipped by the caller).
+func (w *seqWorld) joinPending(t *rapid.T) {
+	p := w.pending
+	select {
+	case <-p.done:
+	case <-time.After(120 * time.Second):
+		t.Fatalf("%s", ev.HarnessError("UpdateSessionCU on %s still blocked 120 s after the relay on its session was released\n%s", p.key, w.history()))
+	}
+	w.pending = nil
+	pk := pkey{p.key.Epoch, p.key.Project}
+	w.accepted[pk] = w.sumCu(pk)
+	w.logf("updateSessionCU on %s completed after the relay was released (ledger re-read: %d)", p.key, w.accepted[pk])
+}
+
+// pollPending: has the waiting UpdateSessionCU returned meanwhile? (It always will on an
+// implementation that does not wait for the relay at all and was merely slow to be scheduled.)
+func (w *seqWorld) pollPending() {
+	if w.pending == nil {
+		return
+	}
+	select {
+	case <-w.pending.done:
+		p := w.pending
+		w.pending = nil
+		pk := pkey{p.key.Epoch, p.key.Project}
+		w.accepted[pk] = w.sumCu(pk)
+		w.logf("updateSessionCU on %s has returned (ledger re-read: %d)", p.key, w.accepted[pk])
+	default:
+	}
+}
+
+// inFlux: the accounting of this project may change at any moment because an UpdateSessionCU call
+// has not returned yet; exact-value clauses on it are skipped until it has.
+func (w *seqWorld) inFlux(pk pkey) bool {
+	return w.pending != nil && w.pending.key.Epoch == pk.Epoch && w.pending.key.Project == pk.Project
+}
+
+func (w *seqWorld) hasPending(f *flight) bool { return w.pending != nil && w.pending.key == f.key }
+
 func (w *seqWorld) removeFlight(f *flight) {
 	for i, g := range w.flights {
 		if g == f {
@@ -296,7 +352,11 @@ func (w *seqWorld) removeFlight(f *flight) {
 func (w *seqWorld) opDone(t *rapid.T) {
 	c := ev.For("C27")
 	f := w.pickFlight(t, func(f *flight) bool { return f.prepared })
+	pend := w.hasPending(f)
 	err := w.psm.OnSessionDone(f.sess, f.relayNum)
+	if pend {
+		w.joinPending(t)
+	}
 	w.logf("done #%d %s relayNum=%d -> %v", f.id, f.key, f.relayNum, err == nil)
 	c.Clause("held => locked: finishing a relay finds its session lock held")
 	if err != nil {
@@ -323,7 +383,17 @@ func (w *seqWorld) opFail(t *rapid.T) {
 	cuBefore := cuRead(&f.sess.CuSum)
 	usedBefore := parent.VerifUsedCU()
 	validNow := w.valid(f.key.Epoch)
+	pend := w.hasPending(f)
 	err := w.psm.OnSessionFailure(f.sess, f.relayNum)
+	if pend {
+		w.joinPending(t)
+		w.logf("failure #%d %s (rollback amounts not checked: a blocked UpdateSessionCU ran concurrently)", f.id, f.key)
+		if err != nil {
+			w.violate(t, "OnSessionFailure of relay #%d found the session lock free (%v)", f.id, err)
+		}
+		w.removeFlight(f)
+		return
+	}
 	cuAfter := cuRead(&f.sess.CuSum)
 	usedAfter := parent.VerifUsedCU()
 	w.logf("failure #%d %s delta=%d epochValid=%v (before: cuSum=%d used=%d; after: cuSum=%d used=%d) -> %v", f.id, f.key, f.delta, validNow, cuBefore, usedBefore, cuAfter, usedAfter, err == nil)
@@ -332,6 +402,13 @@ func (w *seqWorld) opFail(t *rapid.T) {
 		w.violate(t, "OnSessionFailure of relay #%d found the session lock free: the session was not exclusively held (%v)", f.id, err)
 	}
 	pk := pkey{f.key.Epoch, f.key.Project}
+	if validNow && (w.inFlux(pk) || f.fuzzy) {
+		if !w.inFlux(pk) {
+			w.accepted[pk] = w.sumCu(pk)
+		}
+		w.removeFlight(f)
+		return
+	}
 	if validNow {
 		c.Clause("rollback: a relay failing in a valid epoch gives back exactly the CU it was accepted with")
 		if cuAfter != cuBefore-f.delta {
@@ -361,13 +438,19 @@ func (w *seqWorld) opDisband(t *rapid.T) {
 	cuBefore := cuRead(&f.sess.CuSum)
 	usedBefore := f.sess.VerifParent().VerifUsedCU()
 	locked := f.sess.VerifIsLocked()
+	pend := w.hasPending(f)
 	err := f.sess.DisbandSession()
+	if pend {
+		w.joinPending(t)
+		cuBefore = cuRead(&f.sess.CuSum)
+		usedBefore = f.sess.VerifParent().VerifUsedCU()
+	}
 	w.logf("disband #%d %s -> %v", f.id, f.key, err == nil)
 	c.Clause("held => locked: finishing a relay finds its session lock held")
 	if !locked {
 		w.violate(t, "releasing relay #%d: its session lock is free, the session was not exclusively held", f.id)
 	}
-	if cuRead(&f.sess.CuSum) != cuBefore || f.sess.VerifParent().VerifUsedCU() != usedBefore {
+	if !w.inFlux(pkey{f.key.Epoch, f.key.Project}) && (cuRead(&f.sess.CuSum) != cuBefore || f.sess.VerifParent().VerifUsedCU() != usedBefore) {
 		w.violate(t, "releasing relay #%d without use changed the accounting", f.id)
 	}
 	w.classes["disband"] = true
@@ -405,7 +488,28 @@ func (w *seqWorld) opUpdateCU(t *rapid.T) {
 	default:
 		newCU = cur + uint64(rapid.IntRange(1, int(w.cfg.MaxCU[k.Project])).Draw(t, "raise"))
 	}
-	err := w.psm.UpdateSessionCU(consumer, k.Epoch, k.Sid, newCU)
+	var err error
+	// While the lost-update finding is listed (the unchanged UpdateSessionCU, which never waits),
+	// the call is made synchronously: no goroutine, no timing. Only when the finding no longer
+	// reproduces (repaired code, which may serialise the update with the relay in flight and
+	// therefore block here) is the call made from a goroutine with a bounded wait.
+	if l.holder != nil && !ev.Excluded(findingUpdateCU) {
+		if w.pending != nil {
+			t.Skip("an UpdateSessionCU is already waiting for a relay")
+		}
+		done := make(chan error, 1)
+		go func() { done <- w.psm.UpdateSessionCU(consumer, k.Epoch, k.Sid, newCU) }()
+		select {
+		case err = <-done:
+		case <-time.After(100 * time.Millisecond):
+			w.pending = &pendingUpdate{key: k, done: done}
+			w.classes["reward-server-raise-waits-for-relay"] = true
+			w.logf("updateSessionCU %s %s newCU=%d -> waits for relay #%d on the session", consumer, k, newCU, l.holder.id)
+			return
+		}
+	} else {
+		err = w.psm.UpdateSessionCU(consumer, k.Epoch, k.Sid, newCU)
+	}
 	var after uint64
 	if l.ptr != nil {
 		after = cuRead(&l.ptr.CuSum)
@@ -455,6 +559,7 @@ func (w *seqWorld) opUpdateEpoch(t *rapid.T) {
 // invariant runs after every step.
 func (w *seqWorld) invariant(t *rapid.T) {
 	c := ev.For("C27")
+	w.pollPending()
 	snap := w.psm.VerifSnapshot()
 	seen := map[pkey]bool{}
 	for _, p := range snap {
@@ -463,6 +568,9 @@ func (w *seqWorld) invariant(t *rapid.T) {
 			continue
 		}
 		seen[pk] = true
+		if w.inFlux(pk) {
+			continue
+		}
 		var sum uint64
 		for _, s := range p.Sessions {
 			sum += s.CuSum
@@ -488,6 +596,9 @@ func (w *seqWorld) invariant(t *rapid.T) {
 			continue
 		}
 		pk := pkey{k.Epoch, k.Project}
+		if w.inFlux(pk) {
+			continue
+		}
 		c.Clause("one session object per session id")
 		found := false
 		for _, p := range snap {
@@ -531,6 +642,12 @@ func propC27Seq(t *rapid.T) {
 		// release what is still held so that nothing leaks between cases (no checks here)
 		for _, f := range w.flights {
 			_ = w.psm.OnSessionFailure(f.sess, f.relayNum)
+		}
+		if w.pending != nil {
+			select {
+			case <-w.pending.done:
+			case <-time.After(120 * time.Second):
+			}
 		}
 		nontrivial := w.nAccept >= 2 && (w.nRollback+w.nLimitRej+w.nReplayRej+w.nLockedRej+w.nExpiredFail+w.nUpdRaise) >= 1 && w.nInflightOverlap >= 1
 		cls := make([]string, 0, len(w.classes))
